@@ -515,6 +515,125 @@ def rounding_axioms(q):
     return "\n".join(seen.values()) + ("\n" if seen else "")
 
 
+
+class Normalizer:
+    """emits SMT for run terms in normalised form: every term becomes a linear combination (exact rational
+    coefficients) of variables and *atoms* (min/max/abs/rounding/products/quotients/uninterpreted applications,
+    identified structurally).  Pure algebra over the reals: sound wherever real arithmetic stands for the f32
+    arithmetic, which is what the exactness flags establish separately."""
+
+    def __init__(self, run, cut=()):
+        self.run = run
+        self.hh = struct_hasher(run)
+        self.cut_h = set(hash(self.hh(c)) for c in cut)
+        self.lin_memo = {}
+        self.atom_name = {}     # structural hash -> smt name
+        self.decls = []
+        self.used = set()       # term ids visited (for exactness accounting)
+
+    def lin(self, i):
+        if i in self.lin_memo:
+            return self.lin_memo[i]
+        self.used.add(i)
+        ex, g, vb, op, a = self.run.terms[i]
+        if self.cut_h and hash(self.hh(i)) in self.cut_h:
+            res = {self.atom(i, free=True): Fraction(1)}
+        elif op == "var":
+            res = {f"v{a[0]}": Fraction(1)}
+        elif op == "const":
+            v = f32_from_bits(int(a[0]))
+            res = {"1": Fraction(v)} if v == v and abs(v) != float("inf") else {self.atom(i, free=True): Fraction(1)}
+        elif op in ("add", "sub"):
+            x, y = self.lin(int(a[0])), self.lin(int(a[1]))
+            res = dict(x)
+            sgn = 1 if op == "add" else -1
+            for k, c in y.items():
+                res[k] = res.get(k, 0) + sgn * c
+                if res[k] == 0:
+                    del res[k]
+        elif op == "neg":
+            res = {k: -c for k, c in self.lin(int(a[0])).items()}
+        elif op == "mul":
+            x, y = self.lin(int(a[0])), self.lin(int(a[1]))
+            if set(x) <= {"1"}:
+                c = x.get("1", Fraction(0))
+                res = {k: c * v for k, v in y.items() if c * v != 0}
+            elif set(y) <= {"1"}:
+                c = y.get("1", Fraction(0))
+                res = {k: c * v for k, v in x.items() if c * v != 0}
+            else:
+                res = {self.atom(i): Fraction(1)}
+        elif op == "div":
+            x, y = self.lin(int(a[0])), self.lin(int(a[1]))
+            if set(y) <= {"1"} and y.get("1", 0) != 0:
+                c = y["1"]
+                res = {k: v / c for k, v in x.items()}
+            else:
+                res = {self.atom(i): Fraction(1)}
+        else:
+            res = {self.atom(i): Fraction(1)}
+        self.lin_memo[i] = res
+        return res
+
+    def expr(self, l):
+        if not l:
+            return "0.0"
+        parts = []
+        for k, c in l.items():
+            if k == "1":
+                parts.append(num(c))
+            elif c == 1:
+                parts.append(k)
+            else:
+                parts.append(f"(* {num(c)} {k})")
+        return parts[0] if len(parts) == 1 else "(+ " + " ".join(parts) + ")"
+
+    def term(self, i):
+        return self.expr(self.lin(i))
+
+    def atom(self, i, free=False):
+        h = hash(self.hh(i))
+        if h in self.atom_name:
+            return self.atom_name[h]
+        name = f"a{len(self.atom_name)}"
+        self.atom_name[h] = name
+        ex, g, vb, op, a = self.run.terms[i]
+        if free:
+            self.decls.append(f"(declare-const {name} Real)")
+            return name
+        if op in ("min", "max"):
+            d = f"(r{op} {self.term(int(a[0]))} {self.term(int(a[1]))})"
+        elif op in ("abs", "floor", "ceil", "round", "trunc"):
+            d = f"(r{op} {self.term(int(a[0]))})"
+        elif op == "mul":
+            d = f"(* {self.term(int(a[0]))} {self.term(int(a[1]))})"
+        elif op == "div":
+            nume, den = self.term(int(a[0])), self.term(int(a[1]))
+            self.decls.append(f"(declare-const {name} Real)\n(assert (=> (not (= {den} 0.0)) (= (* {name} {den}) {nume})))")
+            return name
+        elif op == "app":
+            args = [self.term(int(x)) for x in a[1:]]
+            if len(args) == 1:
+                d = f"(fun1 {app_id(a[0])} {args[0]})"
+            elif len(args) == 2:
+                d = f"(fun2 {app_id(a[0])} {args[0]} {args[1]})"
+            else:
+                self.decls.append(f"(declare-const {name} Real)")
+                return name
+        else:
+            raise ValueError(op)
+        self.decls.append(f"(define-fun {name} () Real {d})")
+        return name
+
+    def emit(self, roots):
+        """definitions for the given root term ids (t<i>), atoms first"""
+        defs = []
+        for i in sorted(roots):
+            if i in self.run.terms:
+                defs.append(f"(define-fun t{i} () Real {self.term(i)})")
+        return "\n".join(self.decls + defs) + "\n"
+
+
 def cond_smt(c, flip=False):
     taken, op, a, b = c[0], c[1], c[2], c[3]
     if flip:
@@ -776,15 +895,16 @@ def concretize_output(run, text):
 # ----------------------------------------------------------------------------------------------- obligations
 class Obl:
     """one proof obligation on one path: `neg` is the NEGATED property (SMT Bool); unsat = holds on this path"""
-    __slots__ = ("name", "neg", "mode", "ground", "note", "cut")
+    __slots__ = ("name", "neg", "mode", "ground", "note", "cut", "via")
 
-    def __init__(self, name, neg, mode="int", ground=False, note="", cut=()):
+    def __init__(self, name, neg, mode="int", ground=False, note="", cut=(), via=()):
         self.name = name
         self.neg = neg
         self.mode = mode      # 'int' (grid), 'real' (interval hull), 'euf' (uninterpreted float ops, free reals)
         self.ground = ground  # no symbolic quantity involved (decided without the solver when neg is 'true'/'false')
         self.note = note
         self.cut = tuple(cut)  # term ids abstracted to free constants in this query (sound over-approximation)
+        self.via = tuple(via)  # sufficient conditions [(negated lemma, mode)]: if every lemma is valid on the path the obligation holds
 
 
 FAIL = "true"    # negated property trivially satisfiable: violated whenever the path is feasible
@@ -965,32 +1085,17 @@ def run_template(ctx, tpl, vals):
 
 
 def query_text(run, pcs, extra, mode, assume=None, cut=()):
-    """SMT for: domain ∧ path conditions ∧ extra, over the cone of the terms mentioned"""
+    """SMT for: domain ∧ path conditions ∧ extra.  Modes int/real use the normalised emission (linear forms over
+    variables and atoms); mode euf keeps the exact operation structure over uninterpreted float operations."""
     body = (f"(assert {assume})\n" if assume else "") + "".join(f"(assert {c})\n" for c in pcs) + (f"(assert {extra})\n" if extra else "")
-    alias = {}
-    if cut:
-        # structural cut: every term with the same structure as a cut term is the same free constant
-        hh = struct_hasher(run)
-        want = set(hh(c) for c in cut)
-        rep = {}
-        for i in sorted(run.terms):
-            h = hh(i)
-            if h in want:
-                rep.setdefault(h, i)   # smallest id is the representative (declared first)
-        full = set()
-        for i in run.terms:
-            h = hh(i)
-            if h in rep:
-                full.add(i)
-                if i != rep[h]:
-                    alias[i] = rep[h]
-        cut = full
-    ids = cone(run, term_refs(body), cut)
-    for i, r0 in alias.items():
-        if i in ids:
-            ids.add(r0)
+    roots = term_refs(body)
     vm = {"int": "int", "real": "real", "euf": "free"}[mode]
-    return smt_vars(run.vars, vm) + smt_terms(run, ids, euf=(mode == "euf"), cut=cut, alias=alias) + body, ids
+    if mode == "euf":
+        ids = cone(run, roots)
+        return smt_vars(run.vars, vm) + smt_terms(run, ids, euf=True) + body, ids
+    nz = Normalizer(run, cut)
+    defs = nz.emit(roots)
+    return smt_vars(run.vars, vm) + defs + body, nz.used
 
 
 def native_check(ctx, tpl, vals, obl_name=None, release=False):
@@ -1116,6 +1221,21 @@ def explore(ctx, tpl, stats):
                 ans, model = "sat", None
                 cvals = vals
             else:
+                if o.via:
+                    # lemma route: each lemma is a (stronger, easier) statement that implies the property; the property's own
+                    # query is only needed when a lemma fails
+                    allok = True
+                    for lneg, lmode in o.via:
+                        ql, _ = query_text(r, pcs, lneg, lmode, tpl.assume)
+                        la, _m = ctx.z3.ask(ql)
+                        st["queries"] = st.get("queries", 0) + 1
+                        if la != "unsat":
+                            allok = False
+                            break
+                    if allok:
+                        st["discharged"] = st.get("discharged", 0) + 1
+                        st["discharged_via_lemma"] = st.get("discharged_via_lemma", 0) + 1
+                        continue
                 opcs = [] if o.cut else pcs   # a cut query is a local algebraic fact; path conditions over cut terms are dropped
                 q, ids = query_text(r, opcs, o.neg, o.mode, tpl.assume, cut=o.cut)
                 if any(not gr.exact(i) for i in ids):
